@@ -166,7 +166,13 @@ func (P) Exec(line string) string {
 		}
 		return strings.Join(outs, "|")
 	case "str":
-		return strings.ReplaceAll(blockchain.ThresholdState(byte(i64(f[2]))).String(), " ", "_")
+		st, ok := map[string]blockchain.ThresholdState{"defined": blockchain.ThresholdDefined,
+			"started": blockchain.ThresholdStarted, "lockedin": blockchain.ThresholdLockedIn,
+			"active": blockchain.ThresholdActive, "failed": blockchain.ThresholdFailed, "255": 255}[f[2]]
+		if !ok {
+			return "bad-op"
+		}
+		return strings.ReplaceAll(st.String(), " ", "_")
 	case "eaa":
 		d := chaincfg.ConsensusDeployment{AlwaysActiveHeight: uint32(i64(f[2]))}
 		return strconv.FormatUint(uint64(d.EffectiveAlwaysActiveHeight()), 10)
@@ -333,14 +339,12 @@ func execQ(f []string) string {
 			if node < 0 {
 				return "bad-op"
 			}
-			w, err := c.InitThresholdCachesAt(int(node), arg == 1)
-			out = append(out, flagStr(w, err))
+			out = append(out, okStr(c.InitThresholdCachesAt(int(node), arg == 1)))
 		case 'W': // warnUnknownRuleActivations(n)
 			if node < 0 {
 				return "bad-op"
 			}
-			w, err := c.WarnUnknownRuleActivationsAt(int(node))
-			out = append(out, flagStr(w, err))
+			out = append(out, okStr(c.WarnUnknownRuleActivationsAt(int(node))))
 		case 'g':
 			if node < 0 {
 				return "bad-op"
@@ -384,19 +388,33 @@ func execQ(f []string) string {
 	return strings.Join(out, ",")
 }
 
-func flagStr(w bool, err error) string {
-	switch {
-	case err != nil:
+// okStr: initThresholdCaches / warnUnknownRuleActivations are observed through their error and
+// through what they leave in the caches (later state queries, cache-soundness checks); the
+// unknownRulesWarned field and the log lines are internal and not compared.
+func okStr(err error) string {
+	if err != nil {
 		return "err"
-	case w:
-		return "warned"
 	}
-	return "quiet"
+	return "ok"
 }
 
+// stStr names a state by comparing with the exported constants (the numeric values of the enum are
+// in-memory only and not part of the observation).
 func stStr(st blockchain.ThresholdState, err error) string {
 	if err != nil {
 		return "err"
 	}
-	return strconv.Itoa(int(st))
+	switch st {
+	case blockchain.ThresholdDefined:
+		return "0"
+	case blockchain.ThresholdStarted:
+		return "1"
+	case blockchain.ThresholdLockedIn:
+		return "2"
+	case blockchain.ThresholdActive:
+		return "3"
+	case blockchain.ThresholdFailed:
+		return "4"
+	}
+	return "unknown-state"
 }
